@@ -104,6 +104,15 @@ fn c08_local_reader() {
             }
             cases += 1;
         }
+        // reads larger than any pre-allocation, not ending at the end of the file (a buffer that grows may receive more)
+        if cases % 6 == 0 {
+            let big: Vec<u8> = (0..(3usize << 20)).map(|i| (i % 251) as u8 ^ (i >> 12) as u8).collect();
+            for (o, sz) in [(100u64, (1usize << 20) + 1), (0, (1 << 20) + 4096), (7, 2_000_000)] {
+                let b2 = big.clone();
+                let r = rt.block_on(async move { IoReader::new(std::io::Cursor::new(b2)).read_at(o, sz).await.map(|b| b.to_vec()).map_err(|e| e.to_string()) });
+                if r.as_ref().ok().map(|v| &v[..]) != Some(&big[o as usize..o as usize + sz]) { witness("IoReader::read_at does not return exactly the requested bytes", format!("3 MiB file, offset {} size {}: got {:?}", o, sz, r.map(|v| v.len()))); }
+            }
+        }
         // a range reaching past the end of the file must be an error, never short data
         let chunks = vec![ChunkOffset::new(d.len() as u64 - 4, 10)];
         let d2 = d.clone();
@@ -230,7 +239,7 @@ fn c08_http_reader() {
 // ---------------------------------------------------------------- edge ranges / surplus bytes / endless failures
 /// answers every Range request with the requested bytes followed by `extra` surplus bytes; `fail_all`: announce the
 /// body but close the connection before sending any of it
-async fn serve_simple(listener: TcpListener, data: Arc<Vec<u8>>, extra: usize, fail_all: bool, log: Log) {
+async fn serve_simple(listener: TcpListener, data: Arc<Vec<u8>>, extra: usize, fail_all: bool, piece: usize, log: Log) {
     loop {
         let (mut sock, _) = match listener.accept().await { Ok(x) => x, Err(_) => return };
         let mut head = vec![];
@@ -245,7 +254,7 @@ async fn serve_simple(listener: TcpListener, data: Arc<Vec<u8>>, extra: usize, f
         let mut body = data[start..end.max(start)].to_vec();
         body.extend(std::iter::repeat(0xEEu8).take(extra));
         let _ = sock.write_all(format!("HTTP/1.1 206 Partial Content\r\nContent-Length: {}\r\nConnection: close\r\n\r\n", if fail_all { body.len().max(1) } else { body.len() }).as_bytes()).await;
-        if !fail_all { let _ = sock.write_all(&body).await; }
+        if !fail_all { for p in body.chunks(piece.max(1)) { let _ = sock.write_all(p).await; let _ = sock.flush().await; if piece < body.len() { tokio::time::sleep(Duration::from_millis(2)).await; } } }
         let _ = sock.shutdown().await;
     }
 }
@@ -259,7 +268,8 @@ fn c08_http_edge_ranges() {
         vec![(5, 0), (20, 3)], vec![(0, 0)], vec![(10, 4), (14, 0), (14, 3)], vec![(10, 4), (20, 0)], vec![(0, 0), (0, 0), (0, 2)],
         vec![(0, 4), (10, 3)], vec![(7, 5), (12, 5), (40, 1), (41, 0)], vec![(299, 1), (0, 1)],
     ];
-    for extra in [0usize, 1, 3, 5000] {
+    // (surplus bytes, body written in pieces of this size: a body arriving in several frames must still be taken whole)
+    for (extra, piece) in [(0usize, usize::MAX), (1, usize::MAX), (3, usize::MAX), (5000, usize::MAX), (0, 2), (3, 1)] {
         for ranges in &lists {
             let want: Vec<Vec<u8>> = ranges.iter().map(|&(o, s)| d[o as usize..o as usize + s].to_vec()).collect();
             let (d2, ranges2) = (d.clone(), ranges.clone());
@@ -267,7 +277,7 @@ fn c08_http_edge_ranges() {
                 let log: Log = Arc::new(Mutex::new(vec![]));
                 let listener = TcpListener::bind("127.0.0.1:0").await.unwrap();
                 let port = listener.local_addr().unwrap().port();
-                let server = tokio::spawn(serve_simple(listener, d2, extra, false, log.clone()));
+                let server = tokio::spawn(serve_simple(listener, d2, extra, false, piece, log.clone()));
                 let url = reqwest::Url::parse(&format!("http://127.0.0.1:{}/a", port)).unwrap();
                 let mut reader = HttpReader::from_url(url).retries(0);
                 let mut out: Vec<Result<Vec<u8>, String>> = vec![];
@@ -294,7 +304,7 @@ fn c08_http_edge_ranges() {
             });
             if got.0.iter().chain(got.1.iter()).any(|g| g.as_ref().err().map(|e| e == "TIMEOUT").unwrap_or(false)) { continue; }
             let expect: Vec<Result<Vec<u8>, String>> = want.iter().cloned().map(Ok).collect();
-            let detail = format!("ranges {:?}, server appends {} surplus bytes to every body: read_chunks {:?} read_at {:?}", ranges, extra, got.0.iter().map(|g| g.as_ref().map(|v| v.len())).collect::<Vec<_>>(), got.1.iter().map(|g| g.as_ref().map(|v| v.len())).collect::<Vec<_>>());
+            let detail = format!("ranges {:?}, server appends {} surplus bytes to every body and writes bodies in pieces of {} bytes: read_chunks {:?} read_at {:?}", ranges, extra, piece, got.0.iter().map(|g| g.as_ref().map(|v| v.len())).collect::<Vec<_>>(), got.1.iter().map(|g| g.as_ref().map(|v| v.len())).collect::<Vec<_>>());
             if got.0 != expect { witness("HTTP read_chunks does not yield exactly the requested ranges (zero-size ranges / surplus body bytes)", detail.clone()); }
             if got.1 != expect { witness("HTTP read_at does not yield exactly the requested range (zero-size ranges / surplus body bytes)", detail); }
             cases += 1;
@@ -315,7 +325,7 @@ fn c15_http_bounded_retries() {
                 let log: Log = Arc::new(Mutex::new(vec![]));
                 let listener = TcpListener::bind("127.0.0.1:0").await.unwrap();
                 let port = listener.local_addr().unwrap().port();
-                let server = tokio::spawn(serve_simple(listener, d2, 0, true, log.clone()));
+                let server = tokio::spawn(serve_simple(listener, d2, 0, true, usize::MAX, log.clone()));
                 let url = reqwest::Url::parse(&format!("http://127.0.0.1:{}/a", port)).unwrap();
                 let mut reader = HttpReader::from_url(url).retries(retries).retry_delay(Duration::from_millis(1));
                 let res: Result<Result<usize, String>, ()> = if use_read_at {
